@@ -23,7 +23,7 @@ Pairs ==
     <<AsymKey("rsa2056a", 1, NONE, NONE), "RS256">>, <<OctKey(160, "a", "HS512", NONE), "HS512">>,
     <<OctKey(33, "a", NONE, NONE), "HS256">> })
 Pub(k) == IF k.kty = "oct" THEN k ELSE [k EXCEPT !.priv = 0]
-TreeClasses == IF Quick THEN {"flat", "nested", "unicode"} ELSE {"empty", "flat", "nested", "unicode", "bigint", "long"}
+TreeClasses == IF Quick THEN {"flat", "nested", "unicode", "bigint"} ELSE {"empty", "flat", "nested", "unicode", "bigint", "long"}
 Tree(w, cls) == [op |-> "BMap", b |-> 0, k |-> "set", which |-> w, map |-> 0,
                  v |-> [t |-> "json", name |-> NONE, val |-> "@tree:" \o cls, replace |-> 0, jcls |-> "objx", jm |-> <<>>, jcanon |-> NONE]]
 IntClaim(n, w) == [op |-> "BMap", b |-> 0, k |-> "set", which |-> "clm", map |-> 0,
